@@ -96,11 +96,36 @@ def rt_case(draw):
             wide = draw(st.integers(0, 9)) == 0
             cookies.append({'name': n, 'secret': None, 'value': draw(PLAIN_WIDE if wide else PLAIN)})
     return {'cookies': cookies, 'status': draw(st.sampled_from([None, None, None, 201, 204, 304, 304, 404, 500])), 'via': draw(st.sampled_from(['response', 'response', 'returned', 'raised', 'copied', 'copy_returned', 'both_returned', 'both_raised'])),
-            'prime': draw(st.sampled_from([None, None, 'zz=1', names[0] + '=stale', names[0] + '="!bm9wZQ==?bm9wZQ=="']))}
+            'prime': draw(st.sampled_from([None, None, 'zz=1', names[0] + '=stale', names[0] + '="!bm9wZQ==?bm9wZQ=="'])),
+            # set_cookie calls that fail (and are caught by the handler) before / after the successful ones: [when, index of the name, kind of failure]
+            'failed': draw(st.one_of(st.just([]), st.just([]), st.lists(st.tuples(st.sampled_from(['before', 'after']), st.integers(0, 2), st.sampled_from(FAIL_KINDS)), min_size=1, max_size=3)))}
+
+
+FAIL_KINDS = ['unpicklable', 'nonstr_plain', 'too_long', 'too_long_signed', 'bad_option', 'other_name']
+
+
+def failing_set(target, name, kind):
+    """A set_cookie call that raises; the handler catches it and carries on.  Returns False if it did not raise (nothing is judged then)."""
+    try:
+        if kind == 'unpicklable':
+            target.set_cookie(name, lambda: 0, secret='k')
+        elif kind == 'nonstr_plain':
+            target.set_cookie(name, 12345)
+        elif kind == 'too_long':
+            target.set_cookie(name, 'v' * 5000)
+        elif kind == 'too_long_signed':
+            target.set_cookie(name, 'v' * 5000, secret='k')
+        elif kind == 'bad_option':
+            target.set_cookie(name + 'x', 'v', no_such_attribute=1)
+        else:
+            target.set_cookie(name + '\x00;', lambda: 0, secret='k')
+    except Exception:
+        return True
+    return False
 
 
 # ----------------------------------------------------------------- harness browser
-def set_and_collect(cookies, status=None, via='response'):
+def set_and_collect(cookies, status=None, via='response', failed=()):
     """Serve one request whose handler sets the cookies (on the application's response, or on a response object it returns / raises,
     under any status); return {name: emitted 'name=value' string}."""
     import ombott
@@ -111,11 +136,17 @@ def set_and_collect(cookies, status=None, via='response'):
             target = None
         else:
             target = app.response if via in ('response', 'copied', 'copy_returned') else ombott.HTTPResponse('body', status or 200)
+        for when, i, kind in (failed if target is not None else ()):
+            if when == 'before':
+                failing_set(target, cookies[i % len(cookies)]['name'], kind)
         for c in (cookies if target is not None else ()):
             if c['secret'] is not None:
                 target.set_cookie(c['name'], from_plain(c['data']), secret=c['secret'])
             else:
                 target.set_cookie(c['name'], c['value'])
+        for when, i, kind in (failed if target is not None else ()):
+            if when == 'after':
+                failing_set(target, cookies[i % len(cookies)]['name'], kind)
         if via in ('both_returned', 'both_raised'):
             # the handler first sets the names on the application's response (with other values), then answers with a response object of its own
             # carrying the cookies: what the client gets is what the answered object holds
@@ -197,7 +228,12 @@ def check_roundtrip(ctx, case):
         cookies = [c for c in cookies if c not in wide]
         if not cookies:
             return
-    emitted = set_and_collect(cookies, case.get('status'), case.get('via') or 'response')
+    failed = [tuple(f) for f in case.get('failed') or ()]
+    emitted = set_and_collect(cookies, case.get('status'), case.get('via') or 'response', failed)
+    if failed:
+        ctx.count('failing_set_cookie_calls_around_the_successful_ones')
+        for k in [k for k in emitted if k not in {c['name'] for c in cookies} and any(f[2] in ('bad_option',) for f in failed)]:
+            del emitted[k]          # (a cookie whose attribute was refused after the value had been stored: not one of the cookies judged)
     if set(emitted) != {c['name'] for c in cookies}:
         raise CheckFailure(f'Set-Cookie headers {emitted!r} do not cover the cookies set {[c["name"] for c in cookies]!r}')
     header = '; '.join(emitted[c['name']] for c in cookies)
@@ -704,6 +740,14 @@ def run(ctx):
                     ctx.guarded(check_roundtrip, {'cookies': [{'name': 'p', 'secret': None, 'value': 'plain v'}, {'name': 's', 'secret': 'k', 'data': ['u', 1]}],
                                                   'status': status, 'via': via, 'prime': prime})
         ctx.count('status_grid')
+        # a failing set_cookie call (caught by the handler) before / after the successful ones leaves those as they were
+        for kind in FAIL_KINDS:
+            for when in ('before', 'after'):
+                for i in (0, 1):
+                    for via in ('response', 'returned', 'raised'):
+                        ctx.guarded(check_roundtrip, {'cookies': [{'name': 'p', 'secret': None, 'value': 'plain v'}, {'name': 's', 'secret': 'k', 'data': ['u', 1]}],
+                                                      'status': None, 'via': via, 'prime': None, 'failed': [[when, i, kind]]})
+        ctx.count('failed_set_grid')
         # exhaustive: every 1- and (sampled) 2-character Latin-1 plain value
         for a in range(256):
             ctx.guarded(check_roundtrip, {'cookies': [{'name': 'p', 'secret': None, 'value': chr(a)}]})
